@@ -121,6 +121,7 @@ class World:
             import random as _random
             self.rng = _random.Random(scn.get('seed', 0))
             self.spells = {}         # server / app model name -> spelling used
+            self.obs_down = {}       # server -> tick at which its presence was lost
             self.queues = []
             self.placement = None
             world = self
@@ -191,6 +192,7 @@ class World:
     def start_master(self):
         """What run_loop does before entering the loop (without real watchers)."""
         self.master = None
+        self.obs_down = {}
         m = self._new_master()
         m.load_model()
         self.loaded = self.project(m)
@@ -224,6 +226,7 @@ class World:
         client = zkfake.ZkFakeClient(self.store)
         self.nodes[s] = client
         zkutils.put(client, z.path.server_presence(s), {'seen': False}, ephemeral=True)
+        self.obs_down.pop(s, None)
 
     def ev_CreateApp(self, a, p):
         prof = dict(self.scn['aprofiles'][p - 1])
@@ -260,6 +263,12 @@ class World:
     def ev_NodeDown(self, s):
         client = self.nodes.pop(s)
         self.store.expire(client.session)
+        # observer: the server is down from now on (until it registers again or an
+        # administrator overrides its state)
+        # (only what a live master could have seen: a new master takes the time
+        # recorded in the placement node, or its own start)
+        if self.master is not None:
+            self.obs_down[s] = self.v.ticks
 
     def ev_SetPartition(self, s, label):
         masterapi.update_server_attrs(self.admin, s, label)
@@ -269,6 +278,7 @@ class World:
         self.spells.pop(s, None)
 
     def ev_ServerState(self, s, state, apps):
+        self.obs_down.pop(s, None)      # an administrator's word overrides the observer
         masterapi.update_server_state(self.admin, s, state,
                                       [self.names[a] for a in apps if a in self.names])
 
@@ -532,7 +542,15 @@ def replay(scn, history):
         lines.append(dict(ev='Init', args=[], store=w.project_store(), model=w.project(),
                           loaded=w.loaded, clock=relms(w.v.time()), post=project_sched(w),
                           spells=dict(w.spells)))
+        expanded = []
         for ev, args in history:
+            if ev == 'Probe':       # C02 at L2: submit one instance to a (hopefully) quiescent cell
+                expanded.append(('CreateApp', list(args), ''))
+                expanded.append(('Cycle', [], args[0]))
+            else:
+                expanded.append((ev, args, None))
+        quiet = False
+        for ev, args, probe in expanded:
             line = dict(ev=ev, args=list(args))
             pre_store = w.project_store() if ev in ('Restart', 'CrashRestart') else None
             try:
@@ -549,7 +567,12 @@ def replay(scn, history):
             if post is not None:
                 line['post'] = post
                 line['spells'] = {k: v for k, v in w.spells.items()}
+                line['obs_down'] = {k: v for k, v in w.obs_down.items() if w.master is not None}
                 if ev == 'Cycle' and w.placement is not None:
+                    if probe:
+                        line['probe'] = probe
+                        line['quiet'] = bool(quiet)
+                    quiet = all(p[1] == p[3] and p[2] == p[4] for p in w.placement)
                     line['declared'] = w.declared()
                     line['oprio'] = w.oprio()
                     line['queues'] = w.queues
@@ -568,6 +591,8 @@ def replay(scn, history):
                                          for n, b, eb, a, ea in w.init_placement]
             if ev in ('CrashCycle', 'CrashRestart'):
                 line['crashed'] = bool(getattr(w, 'crashed', False))
+            if ev != 'Cycle' and probe is None:
+                quiet = False
             lines.append(line)
             if w.master is None and ev not in ('CrashCycle', 'CrashRestart') and 'exc' in line:
                 break
@@ -600,13 +625,17 @@ def sched_segments(tid, lines):
             cur.append(dict(ev='Init', args=[], h=k, post=l['post']))
             continue
         is_cycle = l['ev'] == 'Cycle' and 'queues' in l
-        line = dict(ev='Cycle' if is_cycle else 'L2', args=[], h=k, post=l['post'],
-                    spells=l.get('spells', {}))
+        line = dict(ev=('ProbeCycle' if 'probe' in l else 'Cycle') if is_cycle else 'L2', args=[], h=k,
+                    post=l['post'],
+                    spells=l.get('spells', {}), obs_down=l.get('obs_down', {}))
         if is_cycle:
             line['queues'] = l['queues']
             line['placement'] = l['placement']
             line['declared'] = l.get('declared', {})
             line['oprio'] = l.get('oprio', {})
+            if 'probe' in l:
+                line['probe'] = l['probe']
+                line['quiet'] = l['quiet']
         cur.append(line)
     if len(cur) > 1:
         segs.append(cur)
